@@ -1,22 +1,30 @@
 """C05 Incoming frames are reassembled exactly under any TCP chunking.
 
-Byte streams of 1-3 response / EVENT frames (v1/v2 8-byte and v3/v4 9-byte headers) are fed to a
+Feed layer: byte streams of 1-3 response / EVENT frames (v1/v2 8-byte and v3/v4 9-byte headers) are fed to a
 handshaken VConnection in every composition of the stream into reads (all 2^(L-1) for short
 streams, all <=3-cut splittings plus the byte-at-a-time split for longer ones).  Requests are
 really sent (and held by the virtual server) so the handlers are registered by send_msg itself;
 event watchers by register_watchers.  After every read the deliveries must be exactly the frames
 completed so far.
+
+Reactor layer (vt/c05lib.py): the same streams go through the read paths the shipped event-loop reactors
+themselves run -- the real AsyncioConnection.handle_read on a virtual asyncio loop whose sock_recv is scripted
+(in_buffer_size lowered so that reads of exactly / one less than / multiples of in_buffer_size happen on short
+streams) and the real TwistedConnection's protocol.dataReceived on a virtual reactor -- and are judged by the same
+oracle whenever the loop has come to rest.
 """
 import functools
 import itertools
 
 from vt.core import Part, HarnessError
+from vt.vthreading import WouldBlock
 from vt import connlib
 
 META = {
     'level': 'exploration',
     'engine': 'E',
-    'technique': 'exhaustive enumeration of read compositions of small multi-frame byte streams on the real Connection',
+    'technique': 'exhaustive enumeration of read compositions of small multi-frame byte streams on the real Connection and on the '
+                 'real read loops of the asyncio and twisted reactors',
     'text': 'For protocol v1-v4 and every stream of 1-2 (thorough: 1-3) frames drawn from {response with 0/1/7-byte body '
             '(per-request recording decoder), RESULT void (driver decoder), EVENT STATUS_CHANGE (stream -1)}, in both '
             'stream-id orders, the byte stream is fed to a handshaken connection through feed() = _iobuf.write + '
@@ -26,8 +34,31 @@ META = {
             'with <= 3 (thorough 4; 3 for three frames) cuts each within 2 bytes of a header start / header end / frame end, and '
             'one byte per read.  After each read the deliveries to the handlers registered by send_msg / register_watchers must '
             'equal, in order and with exact (stream, opcode, flags, body), the frames whose last byte has arrived: nothing early, '
-            'nothing missing, nothing twice, connection not defunct.',
-    'note': 'VConnection.feed models what every shipped reactor does with received bytes.  Header fields other than '
+            'nothing missing, nothing twice, connection not defunct.  '
+            'REACTOR LAYER: the 1-2 frame streams are also pushed through the read paths of the reactors importable here.  '
+            '(a) asyncio: the real AsyncioConnection (its own handle_read coroutine, handshake and REGISTER included) on a virtual '
+            'asyncio loop whose sock_recv(sock, n) is scripted and never returns more than n bytes; in_buffer_size is lowered to B.  '
+            'For every 1-frame stream (v1-v4) and 2-frame stream (quick v2/v4, thorough v1-v4), both stream-id orders and EVERY B '
+            'in 1..stream length+1: the read script in which every recv is full (B bytes; the last takes the rest -- so streams and '
+            'frame ends at exactly B, multiples of B, and B+-1 all occur) and every script in which exactly one recv, any one, '
+            'returns only 1 or B-1 (thorough also 2, B-2) bytes; each script is run (i) with every read arriving while the reader '
+            'waits in sock_recv, judged after every read once the loop is idle, (ii) with all reads already waiting in the '
+            'socket so that consecutive sock_recv calls return without suspending, judged when the loop is idle, (iii) as (ii) '
+            'with EOF right behind the last byte.  ALL compositions into reads of <= B bytes, in modes (i) and (ii): quick v2/v4 '
+            'r0 and r1 for every B in 1..length+1, void for B in {3, 4, header size}, v2 two empty frames for B = 4 (mode (i)) and '
+            'B = 8; thorough v1-v4 r0, r1, void for every B, r7 for B in {4, header size, L}, two empty frames for B in {4, header size}, '
+            'v2 r0+r1 and r1+r0 for B in {4, first frame length}.  (b) twisted: the real TwistedConnection connected through twisted\'s endpoint '
+            'code on a virtual reactor; every read is handed to the dataReceived of the protocol twisted built: all compositions '
+            'of the v2/v4 natural-order streams of <= 16 (thorough 17) bytes, and for all other streams every splitting with <= 1 '
+            '(thorough 2) cuts anywhere, <= 2 (thorough 3) cuts near a header/frame boundary, and one byte per read.  Oracle of '
+            'the reactor layer: whenever the loop is idle (the reader waits for bytes the server has no reason to send) the '
+            'deliveries equal exactly the frames whose last byte has been returned by recv / passed to dataReceived, the read '
+            'loop has not died, the connection is not defunct, and at the end no handler is left registered.',
+    'note': 'VConnection.feed models what a reactor does with received bytes; the reactor layer replaces that model by the shipped '
+            'code for asyncio and twisted (asyncore and libev cannot be imported on this interpreter; the gevent and eventlet '
+            'greenlet loops are not run).  Trusted in the reactor layer: asyncio.BaseEventLoop with sock_recv/sock_sendall and the '
+            'selector replaced (vt/c11lib.VLoop; ready handles run FIFO until none is left), twisted\'s transport replaced by a '
+            'direct call of protocol.dataReceived.  Header fields other than '
             'length/stream/opcode/flags are not varied; bodies of responses are opaque (recording decoder) except RESULT void '
             'and EVENT which go through the driver decoder.',
     'design_ref': 'C05',
@@ -45,11 +76,69 @@ def frame_seqs(maxlen):
     return out
 
 
+def prepare(conn, version, kinds, rev, log, registered=None):
+    """On a handshaken connection: register the event watcher (REGISTER is really sent and must be answered by
+    the server while register_watchers waits; `registered()` is called after that), allocate the stream ids, craft
+    the response stream and really send the requests (handlers registered by send_msg itself).
+    -> stream bytes, expected deliveries, frame end offsets, stream ids"""
+    from vt.world import wire
+    from cassandra.protocol import OptionsMessage, ResultMessage
+    if 'event' in kinds:
+        conn.register_watchers({'STATUS_CHANGE': lambda args: log.append(('event', args.get('change_type'),
+                                                                           tuple(args.get('address') or ())))})
+    if registered is not None:
+        registered()
+    nresp = sum(1 for k in kinds if k != 'event')
+    streams = []
+    for i in range(nresp):
+        with conn.lock:          # "This must be called while self.lock is held"
+            streams.append(conn.get_request_id())
+    # which request gets the driver decoder is decided by the frame kind answering it
+    order = list(reversed(streams)) if rev else list(streams)
+    data = b''
+    expect = []
+    ends = []
+    it = iter(order)
+    cbs = {}
+    for idx, k in enumerate(kinds):
+        if k == 'event':
+            data += wire.frame(version, -1, wire.OP_EVENT, wire.event_status(EVENT_ARGS[0], EVENT_ARGS[1], EVENT_ARGS[2]))
+            expect.append(('event', EVENT_ARGS[0], (EVENT_ARGS[1], EVENT_ARGS[2])))
+        elif k == 'void':
+            s = next(it)
+            cbs[s] = 'void'
+            data += wire.frame(version, s, wire.OP_RESULT, wire.result_void())
+            expect.append(('void', s, s, 1))
+        else:
+            s = next(it)
+            cbs[s] = 'raw'
+            n = int(k[1:])
+            body = bytes((0x30 + 0x10 * idx + j) & 0xff for j in range(n))
+            flags = 0x02 if n == 7 else 0     # an arbitrary header flag must come through unchanged
+            data += wire.frame(version, s, wire.OP_RESULT, body, flags=flags)
+            expect.append(('resp', s, version, s, flags, wire.OP_RESULT, body))
+        ends.append(len(data))
+    # now really send the requests (handlers registered by send_msg)
+    for rid in streams:
+        def cb(resp, rid=rid):
+            if isinstance(resp, connlib.RawResponse):
+                log.append(('resp', rid) + resp.key())
+            elif isinstance(resp, ResultMessage):
+                log.append(('void', rid, resp.stream_id, resp.kind))
+            else:
+                log.append(('other', rid, repr(resp)))
+        if cbs[rid] == 'raw':
+            conn.send_msg(OptionsMessage(), rid, cb, decoder=connlib.raw_decoder)
+        else:
+            conn.send_msg(OptionsMessage(), rid, cb)
+    if sorted(conn._requests) != sorted(streams):
+        raise HarnessError('setup: requests not registered: %r %r' % (streams, conn._requests))
+    return data, expect, ends, streams
+
+
 def build(version, kinds, rev):
     """-> world, conn, log, stream bytes, expected deliveries, frame end offsets"""
     from vt.world.vworld import World, VServer
-    from vt.world import wire
-    from cassandra.protocol import OptionsMessage, ResultMessage
     srv = VServer()
     w = World(srv)
     w.__enter__()
@@ -60,55 +149,11 @@ def build(version, kinds, rev):
             # the setup handshake is itself a frame stream (SUPPORTED, READY) delivered one whole frame per read
             raise SetupFailed(str(e))
         log = []
-        if 'event' in kinds:
-            conn.register_watchers({'STATUS_CHANGE': lambda args: log.append(('event', args.get('change_type'),
-                                                                               tuple(args.get('address') or ())))})
-        srv.hold = lambda c, r: True
-        nresp = sum(1 for k in kinds if k != 'event')
-        streams = []
-        for i in range(nresp):
-            with conn.lock:          # "This must be called while self.lock is held"
-                streams.append(conn.get_request_id())
-        # which request gets the driver decoder is decided by the frame kind answering it
-        order = list(reversed(streams)) if rev else list(streams)
-        data = b''
-        expect = []
-        ends = []
-        it = iter(order)
-        cbs = {}
-        for idx, k in enumerate(kinds):
-            if k == 'event':
-                data += wire.frame(version, -1, wire.OP_EVENT, wire.event_status(EVENT_ARGS[0], EVENT_ARGS[1], EVENT_ARGS[2]))
-                expect.append(('event', EVENT_ARGS[0], (EVENT_ARGS[1], EVENT_ARGS[2])))
-            elif k == 'void':
-                s = next(it)
-                cbs[s] = 'void'
-                data += wire.frame(version, s, wire.OP_RESULT, wire.result_void())
-                expect.append(('void', s, s, 1))
-            else:
-                s = next(it)
-                cbs[s] = 'raw'
-                n = int(k[1:])
-                body = bytes((0x30 + 0x10 * idx + j) & 0xff for j in range(n))
-                flags = 0x02 if n == 7 else 0     # an arbitrary header flag must come through unchanged
-                data += wire.frame(version, s, wire.OP_RESULT, body, flags=flags)
-                expect.append(('resp', s, version, s, flags, wire.OP_RESULT, body))
-            ends.append(len(data))
-        # now really send the requests (handlers registered by send_msg)
-        for rid in streams:
-            def cb(resp, rid=rid):
-                if isinstance(resp, connlib.RawResponse):
-                    log.append(('resp', rid) + resp.key())
-                elif isinstance(resp, ResultMessage):
-                    log.append(('void', rid, resp.stream_id, resp.kind))
-                else:
-                    log.append(('other', rid, repr(resp)))
-            if cbs[rid] == 'raw':
-                conn.send_msg(OptionsMessage(), rid, cb, decoder=connlib.raw_decoder)
-            else:
-                conn.send_msg(OptionsMessage(), rid, cb)
-        if len(srv.pending) != nresp or sorted(conn._requests) != sorted(streams):
-            raise HarnessError('setup: requests not held/registered: %r %r' % (srv.pending, conn._requests))
+        def hold_from_now():
+            srv.hold = lambda c, r: True
+        data, expect, ends, streams = prepare(conn, version, kinds, rev, log, hold_from_now)
+        if len(srv.pending) != len(streams):
+            raise HarnessError('setup: requests not held: %r %r' % (srv.pending, conn._requests))
         return w, conn, log, data, expect, ends
     except BaseException:
         w.__exit__()
@@ -117,6 +162,28 @@ def build(version, kinds, rev):
 
 class SetupFailed(Exception):
     pass
+
+
+def verdict(conn, log, expect, ends, fed, closed_ok=False):
+    """The statement, clause by clause, at a moment when `fed` bytes of the stream have been handed to the connection
+    and it has come to rest.  -> None or (clause, text)"""
+    done = sum(1 for e in ends if e <= fed)
+    if conn.is_defunct or (conn.is_closed and not closed_ok):
+        return ('defunct', 'connection failed after %d bytes: %r' % (fed, conn.last_error))
+    if len(log) > done:
+        return ('partial', 'after %d bytes %d deliveries but only %d frames complete: %r' % (fed, len(log), done, log))
+    if log != expect[:len(log)]:
+        i = next(j for j in range(len(log)) if log[j] != expect[j])
+        got, want = log[i], expect[i]
+        if closed_ok and got[0] == 'other':
+            # the peer closed behind the last byte and the handler was told so instead of being given the frame
+            return ('missing', 'delivery %d is %r, expected %r: %d complete frames had been received before EOF' % (i, got, want, done))
+        clause = 'event' if want[0] == 'event' or got[0] == 'event' else \
+            ('order' if got in expect else ('stream' if got[1] != want[1] else 'body'))
+        return (clause, 'delivery %d is %r, expected %r' % (i, got, want))
+    if len(log) < done:
+        return ('missing', 'after %d bytes (frames complete: %d) only %d delivered' % (fed, done, len(log)))
+    return None
 
 
 def judge(version, kinds, rev, cuts, part):
@@ -139,22 +206,8 @@ def judge(version, kinds, rev, cuts, part):
                 bad = ('livelock', 'after %d bytes had been handed over, the next read of %d bytes never returned: %s' % (fed, len(ch), e))
                 break
             fed += len(ch)
-            done = sum(1 for e in ends if e <= fed)
-            if conn.is_defunct or conn.is_closed:
-                bad = ('defunct', 'connection failed after %d bytes: %r' % (fed, conn.last_error))
-                break
-            if len(log) > done:
-                bad = ('partial', 'after %d bytes %d deliveries but only %d frames complete: %r' % (fed, len(log), done, log))
-                break
-            if log != expect[:len(log)]:
-                i = next(j for j in range(len(log)) if log[j] != expect[j])
-                got, want = log[i], expect[i]
-                clause = 'event' if want[0] == 'event' or got[0] == 'event' else \
-                    ('order' if got in expect else ('stream' if got[1] != want[1] else 'body'))
-                bad = (clause, 'delivery %d is %r, expected %r' % (i, got, want))
-                break
-            if len(log) < done:
-                bad = ('missing', 'after %d bytes (frames complete: %d) only %d delivered' % (fed, done, len(log)))
+            bad = verdict(conn, log, expect, ends, fed)
+            if bad:
                 break
         if bad is None and conn._requests:
             bad = ('missing', 'handlers left registered at the end: %r' % sorted(conn._requests))
@@ -162,11 +215,98 @@ def judge(version, kinds, rev, cuts, part):
             part.violation('C05/%s/h%d' % (bad[0], hs), '%s; case %r' % (bad[1], case), case)
         part.count('evaluations')
         part.count('executions')
+        part.count('feed_executions')
         part.count('reads', len(cuts) + 1)
         part.outcome((len(kinds), len(log), bool(conn.is_defunct)))
         return bad
     finally:
         w.__exit__()
+
+
+def judge_reactor(case, part):
+    """One execution on a shipped reactor's own read path (vt/c05lib.py).  case: reactor, version, B (in_buffer_size;
+    None for twisted), kinds, rev, cuts (read boundaries: recv / dataReceived returns exactly these pieces), mode
+    ('each': every piece arrives while the reader waits and the loop then runs until idle, judged after every read;
+    'burst': all pieces are waiting in the socket, the reader gets them from consecutive recv calls without ever
+    waiting, judged when the loop is idle), eof (the peer closes right behind the last byte)."""
+    from vt import c05lib
+    from vt.world import vworld
+    vworld.install_seams()      # idempotent; without it register_watchers would block on a real threading.Event
+    reactor, version, B = case['reactor'], case['version'], case['B']
+    kinds, rev, cuts, mode, eof = tuple(case['kinds']), case['rev'], tuple(case['cuts']), case['mode'], bool(case['eof'])
+    site = reactor
+    part.count('evaluations')
+    try:
+        link = c05lib.LINKS[reactor](version, B)
+    except c05lib.SetupFailed as e:
+        part.violation('C05/handshake-frames/%s' % site, 'SUPPORTED/READY sent by the server in answer to the driver\'s own '
+                       'OPTIONS/STARTUP were not delivered: %s' % e, case)
+        part.outcome((reactor, 'handshake'))
+        return ('handshake', str(e))
+    try:
+        conn = link.conn
+        log = []
+        try:
+            with link.application():
+                data, expect, ends, streams = prepare(conn, version, kinds, rev, log)
+        except WouldBlock as e:
+            part.violation('C05/handshake-frames/%s' % site, 'the READY frame answering the driver\'s REGISTER was not delivered: '
+                           'register_watchers() would wait for ever (%s)%s' % (e, link.trouble()), case)
+            part.outcome((reactor, 'register'))
+            return ('handshake', 'REGISTER')
+        link.settle()
+        link.reset_counters()
+        if log:
+            raise HarnessError('deliveries before any response byte: %r' % (log,))
+        pieces = connlib.chunks(data, cuts)
+        if B is not None and max(len(x) for x in pieces) > B:
+            raise HarnessError('read script %r has a read longer than in_buffer_size=%d' % (cuts, B))
+        spun = vworld._FEED_STATE['livelocks']
+        bad = None
+        fed = 0
+        try:
+            with c05lib.cpu_guard():
+                if mode == 'each':
+                    for x in pieces:
+                        link.read_each(x)
+                        fed += len(x)
+                        bad = verdict(conn, log, expect, ends, fed)
+                        if bad:
+                            break
+                    if not bad and eof:
+                        link.eof()
+                else:
+                    link.read_burst(pieces, eof=eof)
+                    fed = len(data)
+        except connlib.Livelock as e:
+            bad = ('livelock', 'after %d bytes had been returned to the read loop it never came to rest: %s' % (link.returned, e))
+        if not bad and vworld._FEED_STATE['livelocks'] != spun:
+            bad = ('livelock', 'after %d bytes had been returned to the read loop it never came to rest%s' % (link.returned, link.trouble()))
+        if not bad:
+            bad = verdict(conn, log, expect, ends, fed, closed_ok=eof)
+        if not bad and conn._requests:
+            bad = ('missing', 'handlers left registered at the end: %r' % sorted(conn._requests))
+        if bad:
+            part.violation('C05/%s/%s' % (bad[0], site),
+                           '%s; %s read loop, in_buffer_size=%s, reads returned so far %r (%d bytes of %d still unread in the '
+                           'socket, reader %s)%s; case %r'
+                           % (bad[1], reactor, B, list(link.loop.reads) if reactor == 'asyncio' else link.reads, link.unread(),
+                              len(data), 'waiting for more bytes' if link.reader_waiting() else 'NOT waiting', link.trouble(), case),
+                           case)
+        sizes = [len(x) for x in pieces]
+        part.count('executions')
+        part.count('reactor_executions')
+        part.count('%s_executions' % reactor)
+        part.count('reads', len(sizes))
+        part.count('%s_reads' % reactor, len(sizes))
+        if B is not None:
+            part.count('asyncio_reads_of_exactly_in_buffer_size', sum(1 for n in sizes if n == B))
+            if sizes[-1] == B:
+                part.count('asyncio_executions_whose_last_read_is_exactly_in_buffer_size')
+        part.outcome((reactor, len(kinds), len(log), bool(conn.is_defunct)))
+        return bad
+    finally:
+        link.close()
 
 
 BODY = {'r0': 0, 'r1': 1, 'r7': 7, 'void': 4, 'event': 28}
@@ -218,6 +358,8 @@ def _cut_splittings(L, bounds, anywhere, nearb):
 
 def run_item(item):
     connlib.quiet_driver_logs()
+    if item[0] == 'reactor':
+        return run_reactor_item(item)
     version, kinds, rev, mode, anywhere, nearb, k, n = item
     part = Part()
     L = stream_len(version, kinds)
@@ -237,6 +379,151 @@ def run_item(item):
     if k == 0:
         part.sample({'version': version, 'kinds': list(kinds), 'rev': rev, 'mode': mode, 'stream_bytes': L}, limit=1)
     return part
+
+
+# ------------------------------------------------------------------ the reactors' own read paths
+EACH, BURST, BURST_EOF = ('each', False), ('burst', False), ('burst', True)
+
+
+@functools.lru_cache(maxsize=8)
+def _bounded(L, B):
+    from vt import c05lib
+    return c05lib.bounded_compositions(L, B)
+
+
+def reactor_scripts(reactor, version, kinds, family, B, arg):
+    """deterministic list of read scripts (cut tuples) of one work item and its size.
+    'full': every composition of the stream into reads (asyncio: of at most B = in_buffer_size bytes each);
+    'grid': what a reader asking for B bytes gets when every read is full, and when exactly one read -- any one --
+            comes back short (1 byte, or B-1 bytes; thorough also 2 and B-2) and the others are full again;
+    'cuts': the bounded-cuts family of the feed layer (arg = (cuts anywhere, cuts near a boundary))."""
+    from vt import c05lib
+    L = stream_len(version, kinds)
+    if family == 'full':
+        if B is None:
+            return None, 1 << (L - 1)
+        x = _bounded(L, B)
+        return x, len(x)
+    if family == 'grid':
+        x = c05lib.greedy_family(L, B, arg)
+        return x, len(x)
+    return _cut_splittings(L, tuple(boundaries(version, kinds)), arg[0], arg[1])
+
+
+def run_reactor_item(item):
+    _, reactor, version, kinds, rev, family, Bs, arg, variants, k, n = item
+    part = Part()
+    L = stream_len(version, kinds)
+    nt = 0
+    for B in Bs:
+        scripts = reactor_scripts(reactor, version, kinds, family, B, arg)[0]
+        gen = (connlib.cuts_of_mask(m, L) for m in range(k, 1 << (L - 1), n)) if scripts is None else scripts[k::n]
+        for cuts in gen:
+            if connlib.too_many_livelocks():
+                part.cap('stopped early: several executions never came to rest in this worker (reported as C05/livelock)')
+                return part
+            for mode, eof in variants:
+                judge_reactor({'layer': 'reactor', 'reactor': reactor, 'version': version, 'B': B, 'kinds': list(kinds),
+                               'rev': rev, 'cuts': list(cuts), 'mode': mode, 'eof': eof}, part)
+                if inside_frame(version, kinds, cuts):
+                    nt += 1
+    part.count('distinct_nontrivial', nt)
+    if k == 0 and family != 'grid':
+        part.sample({'layer': 'reactor', 'reactor': reactor, 'version': version, 'kinds': list(kinds), 'rev': rev,
+                     'family': family, 'in_buffer_size': list(Bs), 'variants': [list(v) for v in variants],
+                     'stream_bytes': L}, limit=1)
+    return part
+
+
+def reactor_plan(ctx):
+    """[(estimated executions, work item)] and the sentences for the coverage rule."""
+    from vt import c05lib
+    items = []
+    told = []
+    versions = (2, 4) if ctx.quick else (1, 2, 3, 4)
+
+    def add(reactor, version, kinds, rev, family, Bs, arg, variants):
+        total = 0
+        for B in Bs:
+            cnt = reactor_scripts(reactor, version, kinds, family, B, arg)[1]
+            total += cnt
+            if family == 'full':        # one item per in_buffer_size, cut into pieces of bounded size
+                n = max(1, cnt * len(variants) // PER_ITEM)
+                for k in range(n):
+                    items.append((cnt * len(variants) // n,
+                                  ('reactor', reactor, version, kinds, rev, family, (B,), arg, variants, k, n)))
+        if family != 'full':
+            items.append((total * len(variants), ('reactor', reactor, version, kinds, rev, family, tuple(Bs), arg, variants, 0, 1)))
+        return total * len(variants)
+
+    seqs2 = frame_seqs(2)
+    # ---- asyncio: AsyncioConnection.handle_read on the virtual loop
+    n_grid = n_full = 0
+    shorts = (1, -1) if ctx.quick else (1, 2, -1, -2)
+    for version in (1, 2, 3, 4):
+        for kinds in seqs2:
+            if ctx.quick and version not in versions and len(kinds) > 1:
+                continue
+            nresp = sum(1 for k in kinds if k != 'event')
+            L = stream_len(version, kinds)
+            for rev in ((False, True) if nresp >= 2 else (False,)):
+                n_grid += add('asyncio', version, kinds, rev, 'grid', tuple(range(1, L + 2)), shorts, (EACH, BURST, BURST_EOF))
+    full = []       # (kinds, in_buffer_size values as a function of (L, hs), variants)
+    every = lambda L, hs: tuple(range(1, L + 2))
+    if ctx.quick:
+        full += [(('r0',), every, (EACH, BURST)), (('r1',), every, (EACH, BURST)),
+                 (('void',), lambda L, hs: (3, 4, hs), (EACH, BURST))]
+    else:
+        full += [(('r0',), every, (EACH, BURST)), (('r1',), every, (EACH, BURST)), (('void',), every, (EACH, BURST)),
+                 (('r7',), lambda L, hs: (4, hs, L), (EACH, BURST))]
+    for version in versions:
+        hs = 8 if version < 3 else 9
+        for kinds, bsf, variants in full:
+            L = stream_len(version, kinds)
+            n_full += add('asyncio', version, kinds, False, 'full', bsf(L, hs), None, variants)
+        # two empty frames: each exactly one header long
+        L = stream_len(version, ('r0', 'r0'))
+        if ctx.quick:
+            if version == 2:
+                n_full += add('asyncio', version, ('r0', 'r0'), False, 'full', (4,), None, (EACH,))
+                n_full += add('asyncio', version, ('r0', 'r0'), False, 'full', (hs,), None, (EACH, BURST))
+        else:
+            n_full += add('asyncio', version, ('r0', 'r0'), False, 'full', (4, hs), None, (EACH, BURST))
+            if version == 2:
+                n_full += add('asyncio', version, ('r0', 'r1'), False, 'full', (4, hs), None, (EACH, BURST))
+                n_full += add('asyncio', version, ('r1', 'r0'), False, 'full', (4, hs + 1), None, (EACH, BURST))
+    told.append('asyncio (real AsyncioConnection.handle_read, scripted sock_recv, in_buffer_size lowered to B): '
+                '%d executions of the greedy family = for %s, both stream-id orders and EVERY B in 1..stream length+1: all reads full, '
+                'and exactly one read (any one) returning only %s, each script run with every read arriving while the reader waits (judged '
+                'after every read once the loop is idle), with all reads waiting in the socket at once (judged when the loop is '
+                'idle) and the latter followed at once by EOF; %d executions of ALL compositions into reads of <= B bytes: %s'
+                % (n_grid, 'every 1-frame stream of v1-v4 and every 2-frame stream of v2/v4' if ctx.quick else 'every 1-2 frame stream of v1-v4',
+                   ' / '.join('B%d' % x if x < 0 else str(x) for x in shorts) + ' bytes', n_full,
+                   'v2/v4 r0 and r1 for every B in 1..length+1, void for B in {3,4,header size}, v2 two empty frames for B=4 '
+                   '(waiting reader) and B=8 (both arrival modes)' if ctx.quick else
+                   'v1-v4 r0, r1, void for every B in 1..length+1, r7 for B in {4, header size, L}, two empty frames for B in '
+                   '{4, header size}, v2 r0+r1 / r1+r0 for B in {4, first frame length}'))
+    # ---- twisted: the protocol's dataReceived on the virtual reactor (no read size limit of the driver's own)
+    n_tfull = n_tcuts = 0
+    if c05lib.tr is None:
+        ctx.assume('twisted reactor not importable on this interpreter (%s): its read path is not exercised' % c05lib.TWISTED_ERROR)
+    else:
+        tfull_upto = 16 if ctx.quick else 17
+        for version in (1, 2, 3, 4):
+            for kinds in seqs2:
+                nresp = sum(1 for k in kinds if k != 'event')
+                L = stream_len(version, kinds)
+                for rev in ((False, True) if nresp >= 2 else (False,)):
+                    if version in (2, 4) and not rev and L <= tfull_upto:
+                        n_tfull += add('twisted', version, kinds, rev, 'full', (None,), None, (EACH,))
+                    else:
+                        n_tcuts += add('twisted', version, kinds, rev, 'cuts', (None,), (1, 2) if ctx.quick else (2, 3), (EACH,))
+        told.append('twisted (real TwistedConnection set up through twisted\'s endpoints on the virtual reactor; each read is handed '
+                    'to the protocol\'s dataReceived): %d executions of ALL compositions of the v2/v4 natural-order streams of <= %d '
+                    'bytes, %d executions of the other 1-2 frame streams of v1-v4 (both orders) over {<= %d cuts anywhere} U {<= %d '
+                    'cuts each within +-2 bytes of a header start / header end / frame end} U {one byte per read}, judged after '
+                    'every read' % (n_tfull, tfull_upto, n_tcuts, 1 if ctx.quick else 2, 2 if ctx.quick else 3))
+    return items, told
 
 
 PER_ITEM = 6000
@@ -271,20 +558,30 @@ def run(ctx):
                 n = max(1, total // PER_ITEM)
                 for k in range(n):
                     items.append((total // n, (version, kinds, rev, mode, anywhere, nearb, k, n)))
-    items = [it for _, it in sorted(ctx.rotate(items), key=lambda x: -x[0])]
+    ritems, told = reactor_plan(ctx)
+    # a reactor execution costs about as much as a feed execution; small items are grouped by the pool's chunking
+    items = [it for _, it in sorted(ctx.rotate(items + ritems), key=lambda x: -x[0])]
     for part in ctx.pmap(run_item, items):
         ctx.merge(part)
-    ctx.cov['rule'] = ('versions 1-4 x frame sequences of length 1..%d over %s x stream-id order (natural / reversed); %d streams '
+    ctx.cov['rule'] = ('FEED LAYER: versions 1-4 x frame sequences of length 1..%d over %s x stream-id order (natural / reversed); %d streams '
                        '(<= %d bytes%s) enumerated over ALL compositions, %d streams over {all splittings with <= %s cuts anywhere} '
                        'U {all splittings with <= %s cuts each within +-2 bytes of a header start / header end / frame end} U '
-                       '{one byte per read}; non-trivial = a splitting with at least one read boundary strictly inside a frame'
+                       '{one byte per read}.  REACTOR LAYER: %s.  non-trivial = an execution whose read script has at least one '
+                       'read boundary strictly inside a frame'
                        % (maxframes, list(FRAME_KINDS), nfull, full_upto,
                           '' if ctx.thorough else ' (17 for 8-byte headers), versions 2 and 4 (one per header size), natural order',
-                          ncut, '2' if ctx.quick else '3 (2 for 3-frame streams)', '3' if ctx.quick else '4 (3 for 3-frame streams)'))
+                          ncut, '2' if ctx.quick else '3 (2 for 3-frame streams)', '3' if ctx.quick else '4 (3 for 3-frame streams)',
+                          '; '.join(told)))
     ctx.cov['exhaustive'] = True
-    ctx.assume('a reactor hands received bytes to the connection by _iobuf.write(chunk); process_io_buffer() (VConnection.feed)')
+    ctx.assume('feed layer: a reactor hands received bytes to the connection by _iobuf.write(chunk); process_io_buffer() '
+               '(VConnection.feed); the reactor layer runs the asyncio and twisted reactors\' own code for this instead')
     ctx.assume('the stream ids of the frames are those of requests really outstanding on the connection; unsolicited '
                'stream ids are outside this check')
+    ctx.assume('asyncio loop.sock_recv(sock, n) returns between 1 and n bytes (b\'\' only at EOF), at once when bytes are waiting and '
+               'otherwise after the reader has been suspended; in_buffer_size is a class attribute the read loop reads on every '
+               'iteration, so lowering it scales the stream lengths at which full reads occur, nothing else')
+    ctx.assume('asyncore and libev reactors cannot be imported on this interpreter; the gevent and eventlet read loops (blocking '
+               'recv in a greenlet) are not run')
 
 
 def selfcheck():
@@ -305,7 +602,10 @@ def selfcheck():
 def replay(ctx, data):
     connlib.quiet_driver_logs()
     part = Part()
-    bad = judge(data['version'], tuple(data['kinds']), data['rev'], tuple(data['cuts']), part)
+    if data.get('layer') == 'reactor':
+        bad = judge_reactor(data, part)
+    else:
+        bad = judge(data['version'], tuple(data['kinds']), data['rev'], tuple(data['cuts']), part)
     for fp, what, _ in part.violations:
         print(fp, '::', what)
     return bad is not None
